@@ -408,7 +408,7 @@ def digits_of(L, n, R):
     return out
 
 
-def _div_setup(s, job):
+def _div_setup(s, job, fixed=None):
     obj, R = job["obj"], job["R"]
     n = obj["graph"]["n"]
     # the caller's `roots` list is built once per job and handed over for every labeling (a caller solving many boards
@@ -430,6 +430,9 @@ def _div_setup(s, job):
     else:
         arr = s.int_array(n, 0, R - 1)
         labs = list(arr)
+        if fixed and job["form"] != "array":
+            # label expressions may be Python ints (IntExprLike): a labeling that is given, in whole or in part
+            labs = [fixed.get(v, x) for v, x in enumerate(labs)]
         division = arr if job["form"] == "array" else labs
         cg.division_connected(s, division, R, mk_graph(obj["graph"]), roots=roots,
                               allow_empty_group=job["allow_empty"])
@@ -446,9 +449,16 @@ def run_div(job):
         for L, exp in zip(job["patterns"], job["expects"]):
             s = Solver()
             try:
-                labs = _div_setup(s, job)
-                for v, d in zip(labs, digits_of(L, n, R)):
-                    s.ensure(v == d)
+                digs = digits_of(L, n, R)
+                fixed = None
+                if L % 4 == 1:
+                    fixed = dict(enumerate(digs))
+                elif L % 4 == 3:
+                    fixed = {v: d for v, d in enumerate(digs) if v % 3 != 2}
+                labs = _div_setup(s, job, fixed)
+                for v, d in zip(labs, digs):
+                    if not isinstance(v, int):
+                        s.ensure(v == d)
                 got = solve(s)
             except Watchdog:
                 got = "DidNotTerminate"
@@ -499,6 +509,8 @@ def _sizes_arg(s, job, n):
         return 1
     if kind == "const2":
         return 2
+    if kind == "const0":
+        return 0
     if kind == "shared":
         return s.int_var([1, -1, 0][job.get("id", 0) % 3], n)     # a lower bound below 1 is legal (sizes are >= 1 anyway)
     return [None if x < 0 else x for x in sizes]
@@ -519,7 +531,10 @@ def run_groups(job):
                 if isinstance(gs, list):
                     # the nested size list is the caller's: one object for every partition of the job
                     if "_sizes2d" not in job:
-                        job["_sizes2d"] = [gs[y * w:(y + 1) * w] for y in range(h)]
+                        rows = [gs[y * w:(y + 1) * w] for y in range(h)]
+                        # any Sequence[Sequence[...]] is a legal size argument: rows as lists, as tuples, a tuple of tuples
+                        rk = (job.get("id", 0) // 4) % 3
+                        job["_sizes2d"] = rows if rk == 0 else [tuple(r) for r in rows] if rk == 1 else tuple(tuple(r) for r in rows)
                     gs2 = job["_sizes2d"]
                     if job["form"] == "array":      # sizes as an IntArray2D of variables, holes left free
                         arr = s.int_array((h, w), 1, n)
@@ -559,6 +574,7 @@ def _border_setup(s, job, prim):
     sizes = job["sizes"]
     kind = job["sizekind"]
     per_vertex = [None] * n if kind == "none" else [1] * n if kind == "const1" else [2] * n if kind == "const2" \
+        else [0] * n if kind == "const0" \
         else [None if x < 0 else x for x in sizes]
     if obj["kind"] == "inner":
         h, w = obj["h"], obj["w"]
